@@ -165,3 +165,78 @@ Proof.
   auto.
 Qed.
 
+
+(* ------------------------------------------------------------------ restarts
+   witness.New over an existing database ([restart], [run_epochs] of WitnessModel.v): the table is
+   all the state there is, so what is held for a log depends on the configuration only through
+   that log's own entry, and every theorem about one Witness value carries over to the life of
+   the database. *)
+
+Lemma parse_config_irrelevant (idh1 idh2 : config) decode sig_ok raw id :
+  idh1 id = idh2 id -> parse idh1 decode sig_ok raw id = parse idh2 decode sig_ok raw id.
+Proof. intros E. unfold parse. rewrite E. reflexivity. Qed.
+
+Lemma held_config_irrelevant (idh1 idh2 : config) decode sig_ok st id :
+  idh1 id = idh2 id -> held idh1 decode sig_ok st id = held idh2 decode sig_ok st id.
+Proof.
+  intros E. unfold held. destruct (lookup st id) as [raw|]; [|reflexivity].
+  rewrite (parse_config_irrelevant idh1 idh2 decode sig_ok raw id E). reflexivity.
+Qed.
+
+(* what is held for a log that stays configured the same way survives every restart, whatever
+   happens to the rest of the configuration, and its size never shrinks over the life of the
+   database; equal size = the very same STH *)
+Lemma held_survives_restarts_lemma :
+  forall H hlen strict ch decode sig_ok sign (eps : list (config * list op)) st id (idh0 : config) p1,
+  Forall (fun ep => fst ep id = idh0 id) eps ->
+  held idh0 decode sig_ok st id = Some p1 ->
+  exists p2, held idh0 decode sig_ok (fst (run_epochs H hlen strict ch decode sig_ok sign st eps)) id = Some p2
+    /\ p_size p1 <= p_size p2 /\ (p_size p1 = p_size p2 -> p2 = p1).
+Proof.
+  intros H hlen strict ch decode sig_ok sign eps. induction eps as [|[idh ops] t IH]; intros st id idh0 p1 Hc Hh.
+  - exists p1. cbn. repeat split; auto. lia.
+  - inversion Hc as [|x l Hx Hl]; subst. cbn [fst] in Hx. cbn [run_epochs].
+    destruct (run H hlen strict ch idh decode sig_ok sign (restart st) ops) as [st1 rs] eqn:E1.
+    destruct (run_epochs H hlen strict ch decode sig_ok sign st1 t) as [st2 rss] eqn:E2. cbn [fst].
+    assert (Hh' : held idh decode sig_ok (restart st) id = Some p1).
+    { unfold restart. rewrite (held_config_irrelevant idh idh0 decode sig_ok st id Hx). exact Hh. }
+    destruct (history_monotone H hlen strict ch idh decode sig_ok sign ops _ id p1 Hh') as (p2 & A & B & C).
+    unfold run_state in A. rewrite E1 in A. cbn [fst] in A.
+    rewrite (held_config_irrelevant idh idh0 decode sig_ok st1 id Hx) in A.
+    destruct (IH st1 id idh0 p2 Hl A) as (p3 & A' & B' & C'). rewrite E2 in A'. cbn [fst] in A'.
+    exists p3. split; [exact A'|]. split; [lia|].
+    intros Es. assert (E12 : p_size p1 = p_size p2) by lia. assert (E23 : p_size p2 = p_size p3) by lia.
+    rewrite (C' E23). apply C. exact E12.
+Qed.
+
+Lemma run_app H hlen strict ch idh decode sig_ok sign : forall a st b,
+  run H hlen strict ch idh decode sig_ok sign st (a ++ b) =
+  (fst (run H hlen strict ch idh decode sig_ok sign (fst (run H hlen strict ch idh decode sig_ok sign st a)) b),
+   snd (run H hlen strict ch idh decode sig_ok sign st a)
+   ++ snd (run H hlen strict ch idh decode sig_ok sign (fst (run H hlen strict ch idh decode sig_ok sign st a)) b)).
+Proof.
+  induction a as [|o a IH]; intros st b.
+  - cbn. destruct (run H hlen strict ch idh decode sig_ok sign st b); reflexivity.
+  - cbn [app run]. destruct (step H hlen strict ch idh decode sig_ok sign st o) as [st1 r].
+    rewrite IH. destruct (run H hlen strict ch idh decode sig_ok sign st1 a) as [st2 rs]. cbn [fst snd].
+    destruct (run H hlen strict ch idh decode sig_ok sign st2 b) as [st3 rs']. reflexivity.
+Qed.
+
+(* restarts under one unchanged configuration are invisible: the epochs answer, operation for
+   operation, as ONE witness answers the concatenated history - so every theorem stated for an
+   execution of one Witness value holds for executions interrupted by restarts *)
+Lemma restarts_invisible_lemma :
+  forall H hlen strict ch decode sig_ok sign (idh : config) (eps : list (config * list op)) st,
+  Forall (fun ep => fst ep = idh) eps ->
+  run H hlen strict ch idh decode sig_ok sign st (concat (map snd eps))
+  = (fst (run_epochs H hlen strict ch decode sig_ok sign st eps),
+     concat (snd (run_epochs H hlen strict ch decode sig_ok sign st eps))).
+Proof.
+  intros H hlen strict ch decode sig_ok sign idh eps. induction eps as [|[idh' ops] t IH]; intros st Hc.
+  - reflexivity.
+  - inversion Hc as [|x l Hx Hl]; subst. cbn [fst] in *. cbn [map snd concat run_epochs].
+    rewrite run_app. unfold restart.
+    destruct (run H hlen strict ch idh' decode sig_ok sign st ops) as [st1 rs]. cbn [fst snd].
+    rewrite (IH st1 Hl).
+    destruct (run_epochs H hlen strict ch decode sig_ok sign st1 t) as [st2 rss]. reflexivity.
+Qed.
